@@ -3,12 +3,12 @@ the acceptance oracle and the parser; this module only walks its JSON output
 and groups it into the objects the C15 clauses talk about.
 
   {"ok": bool, "err": str, "rankdir": str,
-   "clusters": [{"url": segs, "n": cluster number}],
-   "nodes":   [{"url": segs, "shape": str, "el": bool (element style), "c": cluster number (0 = top)}],
+   "clusters": [{"url": segs}],
+   "nodes":   [{"url": segs, "c": URL of the cluster the node is drawn in ([] = top level), "nruns", "text1"}],
    "paths":   [{"label": relation label, "tail": segs|[], "head": segs|[], "via": bool (through a blank node),
                 "extra": [[label, segs], ...] (further arguments from the blank node), "ann": bool}],
    "anns":    [{"on": segs|[] (URL of the node it annotates, [] for a blank node), "rows": [attr URI segs...]}],
-   "blank": number of blank nodes, "generic": [segs...]}
+   "blank": number of blank nodes}
 """
 import json
 import re
@@ -16,7 +16,6 @@ import subprocess
 
 from vocab import uri_segs
 
-ELEMENT_FILL = {"#FFFC87": "entity", "#9FB1FC": "activity", "#FED37F": "agent"}
 REL_LABELS = {"wasGeneratedBy", "used", "wasInformedBy", "wasStartedBy", "wasEndedBy", "wasInvalidatedBy",
               "wasDerivedFrom", "wasAttributedTo", "wasAssociatedWith", "actedOnBehalfOf", "wasInfluencedBy",
               "alternateOf", "specializationOf", "mentionOf", "hadMember"}
@@ -51,73 +50,94 @@ def _strip_literal(text):
     return m.group(1).replace('\\"', '"') if m else text
 
 
+class _Rows(object):
+    """Rows of an HTML-like table label: per <TR> the list of (href, text) of its cells."""
+
+    def __init__(self, label):
+        from html.parser import HTMLParser
+        rows = self.rows = []
+
+        class P(HTMLParser):
+            def handle_starttag(self_, tag, attrs):
+                if tag == "tr":
+                    rows.append([])
+                elif tag == "td" and rows:
+                    rows[-1].append([dict(attrs).get("href"), ""])
+
+            def handle_data(self_, data):
+                if rows and rows[-1]:
+                    rows[-1][-1][1] += data
+        P(convert_charrefs=True).feed(label)
+
+
 def lex(dot_text, voc=None):
+    """No naming or styling convention of the library is used: a cluster is a subgraph whose name
+    begins with "cluster" (Graphviz's own rule), a node that carries a URL stands for a name, a node
+    without URL whose label is a table is an annotation, any other node without URL is a blank node."""
     p = subprocess.run(["dot", "-Tdot_json"], input=dot_text.encode("utf-8"), stdout=subprocess.PIPE,
                        stderr=subprocess.PIPE, timeout=60)
     out = {"ok": p.returncode == 0, "err": p.stderr.decode("utf-8", "replace")[:200], "rankdir": "",
-           "clusters": [], "nodes": [], "paths": [], "anns": [], "blank": 0, "generic": []}
+           "clusters": [], "nodes": [], "paths": [], "anns": [], "blank": 0}
     if p.returncode != 0:
         return out
     j = json.loads(p.stdout.decode("utf-8"))
     out["rankdir"] = j.get("rankdir", "")
     objs = j.get("objects", [])
+    _Subgraphs._cnt = j.get("_subgraph_cnt", 0)
     cluster_of = {}
     for o in objs:
-        if "nodes" in o or o.get("name", "").startswith("cluster"):
-            m = re.match(r"cluster_c(\d+)", o.get("name", ""))
-            n = int(m.group(1)) if m else -1
-            out["clusters"].append({"url": uri_segs(o.get("URL", "")) if o.get("URL") else [], "n": n})
+        if "_gvid" in o and not _is_node(o, objs) and o.get("name", "").startswith("cluster"):
+            url = uri_segs(o.get("URL", "")) if o.get("URL") else []
+            out["clusters"].append({"url": url})
             for g in o.get("nodes", []):
-                cluster_of[g] = n
+                cluster_of[g] = url
     texts = rendered_texts(dot_text) if voc is not None else {}
     byid = {}
     for o in objs:
-        if "_gvid" in o and "nodes" not in o and not o.get("name", "").startswith("cluster"):
+        if "_gvid" in o and _is_node(o, objs):
             byid[o["_gvid"]] = o
     kind = {}
     for g, o in byid.items():
         name = o.get("name", "")
-        if name.startswith("ann"):
+        if o.get("URL"):
+            kind[g] = "named"
+            runs = texts.get(name, [])
+            out["nodes"].append({"url": uri_segs(o["URL"]), "c": cluster_of.get(g, []), "nruns": len(runs),
+                                 "text1": (voc.token_ws(runs[0]) + voc.token_ws(_strip_literal(runs[0])))
+                                 if (voc is not None and runs) else []})
+        elif "<TABLE" in o.get("label", "").upper() or "<TR" in o.get("label", "").upper():
             kind[g] = "ann"
-        elif name.startswith("b") and o.get("shape") == "point":
+        else:
             kind[g] = "blank"
             out["blank"] += 1
-        else:
-            el = o.get("fillcolor") in ELEMENT_FILL
-            kind[g] = "el" if el else "generic"
-            url = uri_segs(o.get("URL", "")) if o.get("URL") else []
-            if el:
-                runs = texts.get(name, [])
-                out["nodes"].append({"url": url, "shape": o.get("shape", ""), "el": True,
-                                     "kind": ELEMENT_FILL[o.get("fillcolor")], "c": cluster_of.get(g, 0),
-                                     "nruns": len(runs),
-                                     "text1": (voc.token_ws(runs[0]) + voc.token_ws(_strip_literal(runs[0])))
-                                     if (voc is not None and runs) else []})
-            else:
-                out["generic"].append(url)
 
     def url(g):
         o = byid[g]
-        return uri_segs(o["URL"]) if o.get("URL") and kind[g] in ("el", "generic") else []
+        return uri_segs(o["URL"]) if kind[g] == "named" else []
     edges = j.get("edges", [])
     outgoing = {}
     for e in edges:
         outgoing.setdefault(e["tail"], []).append(e)
     annotated = {}
     for e in edges:
-        if kind.get(e["tail"]) == "ann":
-            o = byid[e["tail"]]
-            rows = re.findall(r'<TR>\s*<TD align="left" href="([^"]*)">', o.get("label", ""))
-            out["anns"].append({"on": url(e["head"]), "onblank": kind.get(e["head"]) == "blank",
-                                "rows": [uri_segs(r) for r in rows]})
-            annotated[e["head"]] = True
+        a, b = e["tail"], e["head"]
+        if kind.get(b) == "ann" and kind.get(a) != "ann":
+            a, b = b, a                       # the direction of the dashed link is a matter of layout
+        if kind.get(a) == "ann":
+            rows = []
+            for cells in _Rows(byid[a].get("label", "")).rows:
+                if cells:
+                    rows.append(uri_segs(cells[0][0]) if cells[0][0] else ["?" + cells[0][1].strip()])
+            out["anns"].append({"on": url(b), "onblank": kind.get(b) == "blank", "rows": rows})
+            annotated[b] = True
     for e in edges:
         lab = e.get("label", "")
-        if lab in REL_LABELS and kind.get(e["tail"]) != "ann":
+        if lab in REL_LABELS and kind.get(e["tail"]) != "ann" and kind.get(e["head"]) != "ann":
             h = e["head"]
-            if kind.get(h) == "blank" and any(x.get("label", "") == "" for x in outgoing.get(h, [])):
+            if kind.get(h) == "blank" and any(x.get("label", "") == "" and kind.get(x["head"]) != "ann"
+                                              for x in outgoing.get(h, [])):
                 # first segment of a path through a blank node
-                second = [x for x in outgoing.get(h, []) if x.get("label", "") == ""]
+                second = [x for x in outgoing.get(h, []) if x.get("label", "") == "" and kind.get(x["head"]) != "ann"]
                 extra = [[x.get("label", ""), url(x["head"])] for x in outgoing.get(h, []) if x.get("label", "") != ""]
                 out["paths"].append({"label": lab, "tail": url(e["tail"]),
                                      "head": url(second[0]["head"]) if second else [],
@@ -129,3 +149,12 @@ def lex(dot_text, voc=None):
                                      "headblank": kind.get(h) == "blank", "via": False, "nseg2": 1,
                                      "extra": [], "ann": False})
     return out
+
+
+def _is_node(o, objs):
+    """dot_json lists the subgraphs first (_gvid below _subgraph_cnt), then the nodes."""
+    return o.get("_gvid", 0) >= _Subgraphs._cnt
+
+
+class _Subgraphs(object):
+    _cnt = 0
